@@ -24,7 +24,7 @@ Clauses
   creation-raised                  new() on a class whose attributes all have core types (any spelling) raised
   unknown-type-rejected            attribute of unknown type: MetaException (default_value, and new() when omitted)
 
-Not checked: what new() does when a value is passed explicitly for an attribute of unknown type; referential
+Not checked: referential
 attributes (C02/C03); keyword names in another letter case than declared (C10).
 """
 import itertools
@@ -467,6 +467,14 @@ def evaluate_unknown(case):
             r = mc.default_value(case['type'])
         elif case['via'] == 'new':
             r = m.new('U')
+        elif case['via'] == 'new-explicit-kw':
+            # every attribute given by keyword, the one of unknown type too (spelled in another case): the creation still
+            # starts by giving every attribute the default of its type, which does not exist
+            kw = dict((n, explicit_value(t, 1)) for n, t in attrs if n != 'Odd')
+            kw[('ODD', 'odd', 'Odd', 'oDD')[case['pos'] % 4]] = 5
+            r = m.new('U', **kw)
+        elif case['via'] == 'new-explicit-pos':
+            r = m.new('U', *[5 if n == 'Odd' else explicit_value(t, 1) for n, t in attrs[:case['pos'] + 1]])
         else:
             # other attributes given, the one of unknown type omitted
             kw = dict((n, explicit_value(t, 1)) for n, t in attrs if n != 'Odd')
@@ -486,7 +494,7 @@ def unknown_cases():
             t = spell(ty, sp)
             for others in [()] + [(a,) for a in CORE] + [(a, b) for a in CORE for b in CORE]:
                 for pos in range(len(others) + 1):
-                    for via in ('default_value', 'new', 'new-kw'):
+                    for via in ('default_value', 'new', 'new-kw', 'new-explicit-kw', 'new-explicit-pos'):
                         k += 1
                         yield dict(type=t, pos=pos, others=[spell(o, k) for o in others], gen=('integer', 'uuid', 'user')[k % 3], via=via)
 
@@ -551,11 +559,9 @@ def generators(ctx):
 
 @item('unknown-types', stands_in_for=['xtuml.meta.MetaClass.default_value'],
       bound='7 unknown type names x 4 spellings, alone or next to 1..2 attributes of core types at every position, through '
-            'default_value(), new() without arguments and new() with all other attributes given',
+            'default_value(), new() without arguments, new() with all other attributes given, and new() with an explicit value for it (keyword in 4 spellings, positional)',
       shards=1, weight=1)
 def unknown_types(ctx):
-    if ctx.shard == 0:
-        ctx.note('not checked: new() with an explicit value for the attribute of unknown type (the property does not say whether that is rejected)')
     _drive(ctx, unknown_cases(), evaluate_unknown)
 
 
